@@ -41,7 +41,7 @@ type c28obs struct {
 }
 
 func c28run(run int, mode string, seed uint64, writesPerNode int) (o c28obs) {
-	const nn = 4
+	const nn = 5
 	o = c28obs{Kind: "c28", Run: run, Mode: mode, Nodes: nn, Writes: make([][]int64, nn)}
 	defer func() {
 		if r := recover(); r != nil {
@@ -126,7 +126,10 @@ func c28run(run int, mode string, seed uint64, writesPerNode int) (o c28obs) {
 			}
 		}()
 	} else {
-		sub, err = nm.Subscribe(ctx, params, func(_ *monitor.Subscription, m *monitor.DataChangeMessage) { record(m) },
+		sub, err = nm.Subscribe(ctx, params, func(_ *monitor.Subscription, m *monitor.DataChangeMessage) {
+			record(m)
+			time.Sleep(150 * time.Microsecond) // a busy (not a dropping) consumer: notifications queue up behind it
+		},
 			ts.Nodes[0].String(), ts.Nodes[1].String())
 	}
 	if err != nil {
@@ -191,20 +194,25 @@ func c28run(run int, mode string, seed uint64, writesPerNode int) (o c28obs) {
 		return
 	}
 	monitored[2], monitored[3] = true, true
-	waitProgress(0.6)
-	if err := sub.RemoveNodeIDs(ctx, ts.Nodes[1]); err != nil {
-		o.Err = "remove: " + err.Error()
-		return
+	// churn: a monitored node is removed and ANOTHER node is added right away, several times, while both are being
+	// written and the consumer is busy (notifications of the removed node are still on their way)
+	in, out := 1, 4
+	for cyc := 0; cyc < 6; cyc++ {
+		waitProgress(0.45 + 0.07*float64(cyc))
+		if err := sub.RemoveNodeIDs(ctx, ts.Nodes[in]); err != nil {
+			o.Err = "remove: " + err.Error()
+			return
+		}
+		o.RemovedAt = append(o.RemovedAt, [2]int{in, ndeliv()})
+		delete(monitored, in)
+		o.AddedAt = append(o.AddedAt, [2]int{out, ndeliv()})
+		if err := sub.AddNodeIDs(ctx, ts.Nodes[out]); err != nil {
+			o.Err = "add: " + err.Error()
+			return
+		}
+		monitored[out] = true
+		in, out = out, in
 	}
-	o.RemovedAt = append(o.RemovedAt, [2]int{1, ndeliv()})
-	delete(monitored, 1)
-	waitProgress(0.8)
-	o.AddedAt = append(o.AddedAt, [2]int{1, ndeliv()})
-	if err := sub.AddNodeIDs(ctx, ts.Nodes[1]); err != nil { // the same node again: a NEW handle
-		o.Err = "re-add: " + err.Error()
-		return
-	}
-	monitored[1] = true
 	if mode == "slowchan" {
 		waitProgress(0.9)
 		paused.Store(true)
